@@ -277,6 +277,21 @@ def capturing(cap: Capture, forced_layout: str | None = None):
             return fail
         if forced_layout == "zero_budget":
             return o_solve(self, strategy, 0.05, early_stop)
+        if forced_layout == "stretch":
+            # a feasible but poor outcome, as a solver out of time may return: the hold gate of a memory cell (or, failing
+            # that, the last combinator) ends up 14 tiles beyond everything else. No overlap can arise (the tile lies
+            # outside the bounding box of all positions), only distances grow.
+            r = o_solve(self, strategy, time_limit, early_stop)
+            if r.success and r.positions:
+                ids = [i for i in r.positions if str(i).endswith("_hold_gate")] or \
+                      [i for i in r.positions if str(i).startswith(("arith_", "decider_"))]
+                if ids:
+                    far = max(x for x, _ in r.positions.values()) + 14
+                    pos = dict(r.positions)
+                    pos[ids[-1]] = (far, pos[ids[-1]][1])
+                    r = _ils.OptimizationResult(positions=pos, violations=r.violations, total_wire_length=r.total_wire_length,
+                                                success=r.success, strategy_used=r.strategy_used, solve_time=r.solve_time)
+            return r
         return o_solve(self, strategy, time_limit, early_stop)
 
     if forced_layout:
